@@ -334,4 +334,65 @@ example : let v : JVal := .dict [([0x61], .dict []), ([0x62], .list [.int 1, .st
     h.value 2 = some (.dict [([0x61], .dict []), ([0x62], .list [.int 1, .str [0x78]]), ([0x63], .null)]) ∧
     h.value 0 = some (.list [.int 5]) := by decide
 
+/-! ## the name limit is on the decoded name -/
+
+/-- **`JSON_MAX_KEY` limits the decoded name.**  On a fresh dict, `json_dict_put_null(d, k)` with a
+valid name `k` succeeds exactly when `k` itself is at most 1 MiB long — the length of the literal
+`json_render` writes for `k` (`renderString k`, up to six bytes per byte of `k`) plays no role.
+The parser model of C02 applies the same rule after un-escaping, which is why
+`json_parse_render_roundtrip` needs `shortKeys` only. -/
+theorem key_limit_is_on_decoded_length (cyc : Bool) (k : Bytes) (hk : validString k = true) :
+    (Heap.run true cyc {} [.newDict, .putS 0 k .null]).2 =
+      [.ptr (some 0), .flag (decide (k.length ≤ Heap.jsonMaxKey))] := by
+  by_cases hl : k.length ≤ Heap.jsonMaxKey
+  · have hl' : ¬ k.length > Heap.jsonMaxKey := by omega
+    cases cyc <;>
+    simp [Heap.run, Heap.step, Heap.alloc, Heap.hasContext, Heap.newScalar, Heap.dictPut, Heap.get, hk, hl, hl',
+      Usual.C06.insert, Heap.selfOrAncestor, Heap.parentOf]
+  · have hl' : k.length > Heap.jsonMaxKey := by omega
+    cases cyc <;>
+    simp [Heap.run, Heap.step, Heap.alloc, Heap.hasContext, Heap.newScalar, Heap.dictPut, Heap.get, hk, hl, hl',
+      Heap.selfOrAncestor, Heap.parentOf]
+
+theorem validString_ctl (n : Nat) : validString (List.replicate n 0x01) = true := by
+  unfold validString
+  simp only [List.length_replicate]
+  induction n with
+  | zero => rfl
+  | succ n ih => simp [List.replicate_succ, validStr, Rfc.utf8Len, ih]
+
+theorem renderString_ctl_length (n : Nat) : (renderString (List.replicate n 0x01)).length = 6 * n + 2 := by
+  have h : ∀ n, (escBody 0 (List.replicate n 0x01)).length = 6 * n := by
+    intro n
+    induction n with
+    | zero => rfl
+    | succ n ih =>
+      have e : escBody 0 ((0x01 : UInt8) :: List.replicate n 0x01) =
+          escapeChar 1 ++ escBody 0 (List.replicate n 0x01) := by
+        simp [escBody, needsEscape]
+      rw [List.replicate_succ, e, List.length_append, ih]
+      have : (escapeChar 1).length = 6 := by decide
+      omega
+  simp [renderString, h n]
+
+/-- a name that fits decoded (174 763 bytes) while its literal does not (1 048 580 bytes with the
+quotes): accepted, rendered, and read back by the `json_parse` model under every option set -/
+theorem escaped_name_over_limit_roundtrips (sd : Bytes → UInt64 × Nat) (fmt17 : UInt64 → Bytes)
+    (hsyn : ∀ x, isFinite x = true → floatTok (renderFloat fmt17 x) = true)
+    (hlen : ∀ x, isFinite x = true → (renderFloat fmt17 x).length < Usual.Gen.C02Tables.NUMBER_BUF)
+    (hsd : ∀ x, isFinite x = true → sd (renderFloat fmt17 x) = (x, (renderFloat fmt17 x).length))
+    (o : Usual.C02.Opts) :
+    let k : Bytes := List.replicate 174763 0x01
+    k.length ≤ Heap.jsonMaxKey ∧ Heap.jsonMaxKey < (renderString k).length ∧
+    Usual.C02.parse sd o (render fmt17 (.dict [(k, .null)])) = .ok (.dict [(k, .null)]) := by
+  intro k
+  have hkl : k.length = 174763 := List.length_replicate
+  have hkv : validString k = true := validString_ctl 174763
+  have hrl : (renderString k).length = 6 * 174763 + 2 := renderString_ctl_length 174763
+  generalize k = k' at *
+  refine ⟨by rw [hkl]; decide, by rw [hrl]; decide, ?_⟩
+  refine json_parse_render_roundtrip sd fmt17 hsyn hlen hsd _ ?_ ?_ o
+  · simp only [JVal.wf, keysSorted, wfKvs, hkv, Bool.and_self]
+  · exact ⟨by rw [hkl]; decide, trivial, trivial⟩
+
 end UsualProps.C03
